@@ -35,6 +35,9 @@ PATTERNS = [
     ("cnt % 2 == 0", lambda p, s: s["cnt"] % 2 == 0), ("cnt > 1", lambda p, s: s["cnt"] > 1),
     ("PL >= 14 && ($1).type == 2048", lambda p, s: p.pl >= 14 and p.data[12:14] == b"\x08\x00"),
     ("PL >= 14 && ($1).type != 2048", lambda p, s: p.pl >= 14 and p.data[12:14] != b"\x08\x00"),
+    # patterns that are not booleans are judged by their truthiness
+    ("NP", lambda p, s: True), ("PL - 60", lambda p, s: p.pl != 60), ("cnt", lambda p, s: s["cnt"] != 0), ("\"\"", lambda p, s: False),
+    ("[NP]", lambda p, s: True), ("TSU % 2", lambda p, s: p.usec % 2 != 0), ("null", lambda p, s: False), ("WL - PL", lambda p, s: p.wire != p.pl),
 ]
 
 
@@ -119,8 +122,11 @@ def gen_program(rng, silent):
     return "\n".join(lines) + "\n", model, has_end
 
 
-def gen_stream(rng):
+def gen_stream(rng, long=False):
     n = rng.choice([0, 1, 2, 3, 5, 8, 20, 40])
+    if long:
+        # more packets than the VM has stack slots or frames: per-packet state must not accumulate
+        n = rng.choice([4200, 5000, 9000])
     recs = []
     for k in range(n):
         if rng.random() < 0.7:
@@ -182,7 +188,12 @@ def run(chk):
         for t in range(n):
             silent = rng.random() < 0.5
             src, model, has_end = gen_program(rng, silent)
-            recs, hdr = gen_stream(rng)
+            long = (t % 100 == 7)
+            if long:
+                # make sure actions with locals run for every packet
+                src = src.replace("let cnt = 0; let total = 0;", "let cnt = 0; let total = 0; let lsum = 0;", 1)
+                src += "@ true { let l1 = NP; let l2 = PL; let l3 = l1 + l2; lsum = lsum + l3 - l3; }\n@ NP > 0 { let m1 = 1; let m2 = [m1]; }\n"
+            recs, hdr = gen_stream(rng, long)
             data = pkt.pcap_file(recs, **hdr)
             with open(path, "w") as f:
                 f.write(src)
